@@ -191,6 +191,28 @@ where
 				})
 				.ok() == Some(snap)) as i128);
 			}
+			"serde_each" => {
+				// at EVERY step: snapshot, restore, and let the restored instance and a clone of the original
+				// run ahead on the next inputs; one flag per step (1 = bit-identical look-ahead)
+				let look = t.next_usize();
+				let mut m = M::new(n, &x0).unwrap();
+				for i in 0..xs.len() {
+					let snap = vtree::to_value(&m).unwrap();
+					let flag = match vtree::from_value::<M>(snap.clone()) {
+						Err(_) => T_ERR,
+						Ok(mut r) => {
+							let mut c = m.clone();
+							let mut ok = vtree::to_value(&r).ok() == Some(snap);
+							for x in xs[i..].iter().take(look) {
+								ok &= vb(r.next(x)) == vb(c.next(x));
+							}
+							ok as i128
+						}
+					};
+					o.push(flag);
+					o.push(vb(m.next(&xs[i])));
+				}
+			}
 			other => panic!("unknown glue variant {other}"),
 		}
 		o
